@@ -278,8 +278,12 @@ def r07e(model: Model, rr: RuleResult):
         rr.bad(s, s.node, "strike glyph index range is not (min_gid, max_gid)", construct="_make_cbdt_strike: start/endGlyphIndex")
     names = [st for st in walk_body(s) if isinstance(st, ast.Assign) and norm(st.targets[0]) == "index_subtable.names"]
     locs = [c for c in calls_in(s) if callee_tail(c) == "_cbdt_bitmapdata_offsets"]
-    if names and isinstance(names[0].value, ast.ListComp) and norm(names[0].value.generators[0].iter) == "color_glyphs" and not names[0].value.generators[0].ifs \
-            and norm(names[0].value.elt) == f"ttfont.getGlyphName({norm(names[0].value.generators[0].target)}.glyph_id)" and locs and norm(locs[0].args[-1]) == "color_glyphs":
+    nv_ = None
+    if names:
+        from ..dataflow import resolved as _res2, comprehension_over_base as _cob
+        nv_ = _res2(scfg, scfg.node_for(names[0]), names[0].value)
+        nv_ = _cob(scfg, scfg.node_for(names[0]), nv_) if isinstance(nv_, ast.ListComp) else None
+    if nv_ is not None and nv_[0] == "color_glyphs" and norm(nv_[1]["elt"]) == "ttfont.getGlyphName(_e.glyph_id)" and locs and norm(locs[0].args[-1]) == "color_glyphs":
         rr.ok("names and locations enumerate the same glyph sequence in the same order")
     else:
         rr.bad_shape(s, s.node, "index-subtable names and locations are not built from the same sequence", construct="_make_cbdt_strike: names/locations")
@@ -402,21 +406,21 @@ def r14b(model: Model, rr: RuleResult):
     else:
         rr.bad_shape(s, s.node, "sbix record is not stored under its glyph's name", construct="strike.glyphs[...]")
     c = model.func("bitmap_tables", "_make_cbdt_strike")
+    ccfg = cfg_of(c)
+    from ..dataflow import comprehension_over_base
     data = [x for x in walk_body(c) if isinstance(x, ast.Assign) and norm(x.targets[0]) == "data" and isinstance(x.value, ast.DictComp)]
-    if data:
-        dc = data[0].value
-        v = norm(dc.generators[0].target)
-        if norm(dc.key) == f"ttfont.getGlyphName({v}.glyph_id)" and norm(dc.value) == f"_cbdt_bitmap_data(config, metrics[{v}.glyph_id], {v}.bitmap)":
+    rd = comprehension_over_base(ccfg, ccfg.node_for(data[0]), data[0].value) if data else None
+    if rd is not None and rd[0] == "color_glyphs":
+        k, v = norm(rd[1]["key"]), norm(rd[1]["value"])
+        if k == "ttfont.getGlyphName(_e.glyph_id)" and v == "_cbdt_bitmap_data(config, BitmapMetrics.create(config, _e.bitmap, ppem), _e.bitmap)":
             rr.ok("CBDT: name, metrics and bitmap of each record come from the same glyph")
+            rr.ok("CBDT: metrics computed from each glyph's own bitmap at the strike's ppem")
+        elif k.startswith("ttfont.getGlyphName(") and v.startswith("_cbdt_bitmap_data(config, ") and ("color_glyphs[" in k + v or "metrics[" in v):
+            rr.bad(c, data[0], "CBDT record pairs a glyph name with another glyph's metrics or image", construct=short(data[0].value, 140))
         else:
-            rr.bad(c, data[0], "CBDT record pairs a glyph name with another glyph's metrics or image", construct=short(dc, 140))
+            rr.bad_shape(c, data[0], "CBDT record pairs a glyph name with another glyph's metrics or image", construct=short(data[0].value, 140))
     else:
         rr.bad_shape(c, c.node, "CBDT data mapping not found", construct="_make_cbdt_strike: data")
-    m = [x for x in walk_body(c) if isinstance(x, ast.Assign) and norm(x.targets[0]) == "metrics" and isinstance(x.value, ast.DictComp)]
-    if m and norm(m[0].value.key).endswith(".glyph_id") and "BitmapMetrics.create(config, c.bitmap, ppem)" in norm(m[0].value.value):
-        rr.ok("CBDT: metrics computed from each glyph's own bitmap at the strike's ppem")
-    else:
-        rr.bad_shape(c, c.node, "CBDT metrics are not computed per glyph from its own bitmap", construct="_make_cbdt_strike: metrics")
     bd = model.func("bitmap_tables", "_cbdt_bitmap_data")
     t = " ".join(norm(x) for x in bd.body)
     want = ["bitmap_data.metrics.width, bitmap_data.metrics.height = image_data.size", "bitmap_data.metrics.BearingX = metrics.x_offset",
